@@ -29,11 +29,16 @@ CONSTANTS Ver, AutoPub, AutoPing, KA,
           EndpointProps        \* Props property ids also checked on each endpoint
 
 VARIABLES c, s, gc, gs, rc, rs, pg, c2s, s2c, duties, pend, ops, fires, phase, nconn,
+          olog,   \* outcome of each application request so far: << connection number, phase, refused?, kind, qos >>.  Part of the
+                  \* view ON PURPOSE: a refused request leaves the endpoint unchanged, so without it "refused after the
+                  \* resume" and "refused while the transport was down" merge into one state and only one of the two
+                  \* histories would be continued (and replayed) - an implementation that wrongly ACCEPTS one of them
+                  \* differs exactly in what happens afterwards.
           last,   \* [who, rec] of the last step      (hidden by VIEW)
           hist    \* the schedule                     (hidden by VIEW)
 
-vars == << c, s, gc, gs, rc, rs, pg, c2s, s2c, duties, pend, ops, fires, phase, nconn, last, hist >>
-view == << c, s, gc, gs, pg, c2s, s2c, duties, pend, ops, fires, phase, nconn >>
+vars == << c, s, gc, gs, rc, rs, pg, c2s, s2c, duties, pend, ops, fires, phase, nconn, olog, last, hist >>
+view == << c, s, gc, gs, pg, c2s, s2c, duties, pend, ops, fires, phase, nconn, olog >>
 
 V(x) == IF x = 99999 THEN -1 ELSE x
 NoPend == [who |-> "", pkt |-> NoPkt]
@@ -96,6 +101,8 @@ Commit(who, call, consume, clear, du2, pend2, ops2, fires2, phase2, nconn2) ==
       /\ pg' = pg2
       /\ c2s' = newC2s /\ s2c' = newS2c
       /\ duties' = du3 /\ pend' = pend2 /\ ops' = ops2 /\ fires' = fires2 /\ phase' = phase2 /\ nconn' = nconn2
+      /\ olog' = (IF call.op = "send" /\ call.pkt.kind \in {"publish", "subscribe", "unsubscribe"}
+                  THEN Append(olog, << nconn, phase, HasErr(a.out), call.pkt.kind, call.pkt.qos >>) ELSE olog)
       /\ last' = [who |-> who, rec |-> r,
                   quiet |-> Quiet(c2, s2, gc2, gs2, newC2s, newS2c, du3, pend2, phase2), vacOK |-> VacOK(c2, s2),
                   oc |-> ObsOf(c2), os |-> ObsOf(s2), dc |-> DigOf(c2), ds |-> DigOf(s2)]
@@ -192,7 +199,7 @@ Init ==
       xs == RunFrom(New("server", Ver, 16), G0, Rec0, SetupS, 1)
   IN  /\ c = xc.st /\ gc = xc.g /\ rc = xc.rec
       /\ s = xs.st /\ gs = xs.g /\ rs = xs.rec
-      /\ pg = PG0 /\ c2s = <<>> /\ s2c = <<>> /\ duties = {} /\ pend = NoPend /\ ops = 0 /\ fires = 0
+      /\ pg = PG0 /\ c2s = <<>> /\ s2c = <<>> /\ duties = {} /\ pend = NoPend /\ ops = 0 /\ fires = 0 /\ olog = <<>>
       /\ phase = "down" /\ nconn = 0
       /\ last = [who |-> "c", rec |-> xc.rec, quiet |-> FALSE, vacOK |-> TRUE,
                  oc |-> ObsOf(xc.st), os |-> ObsOf(xs.st), dc |-> DigOf(xc.st), ds |-> DigOf(xs.st)]
